@@ -236,7 +236,14 @@ def tie(ctx, model_ok=True):
     shards = []
     chunk = 3000
     txt = COQ_HEADER + f'Definition alpha : list N := {alpha}.\n'
-    txt += f'Eval vm_compute in map digest (flat_map (wordsn alpha) (seq 0 {n_enum + 1})).\n'
+    if n_enum <= 3:
+        txt += f'Eval vm_compute in map digest (flat_map (wordsn alpha) (seq 0 {n_enum + 1})).\n'
+    else:
+        # one result list per first symbol for the longest words: a single list of ~300k results overflows Coq's stack
+        # when it is printed; the order (length, then lexicographic in alphabet order) is the enumeration order of Python
+        txt += f'Eval vm_compute in map digest (flat_map (wordsn alpha) (seq 0 {n_enum})).\n'
+        for ch in ALPHA:
+            txt += f'Eval vm_compute in map digest (map (cons {ord(ch)}) (wordsn alpha {n_enum - 1})).\n'
     for i in range(0, len(rand), chunk):
         lits = '; '.join(common.coq_ustr(s) for s in rand[i:i + chunk])
         txt += f'Eval vm_compute in map digest [{lits}].\n'
